@@ -755,8 +755,6 @@ def prop_feature(rt, prefer_compound=False):
     """Feature of a propositional input of the conj / disj normalisers (computed from the term).  For sort_conj /
     sort_disj (which treat non-literal members specially) compound members take precedence."""
     s = repr(rt)
-    if "'equals'" in s and not prefer_compound:
-        return 'with-iff'
     h, args = L.r_head_args(rt)
     op = h[1] if h[0] == 'const' and h[1] in ('conj', 'disj') and len(args) == 2 else None
     collapses = None
@@ -769,6 +767,8 @@ def prop_feature(rt, prefer_compound=False):
         ms = [repr(ref.canon(rt))]
     if collapses and not prefer_compound:
         return collapses
+    if "'equals'" in s and not prefer_compound:
+        return 'with-iff'
 
     def literal(m):
         return m.startswith("('var'") or (m.startswith("('app', ('const', 'neg'") and "('var'" in m and m.count("'const'") == 1)
